@@ -89,6 +89,32 @@ CHECKS = {
         technique="TLA+ specs (Translate/VM panic sites model-checked; Mutate.tla and Lexer.tla as input generators) "
                   "explored with TLC; replay of every text through all stages under crash/time capture",
     ),
+    "C05": dict(
+        category="model_checking",
+        text="Fmt.tla part (a): Canon, the text AstPrinter::render writes for a comment-free AST as a character sequence, "
+             "one clause per arm of ast/printer/mod.rs, with named deviations; TLC checks Injective (Canon(a)=Canon(b) => "
+             "Same(a,b), Same ignoring field-name quoting) and Relexes (every literal / bare name reads back as itself) "
+             "over an exhaustively enumerated bounded AST domain (all literal classes incl. integral/1e20/2^-30 floats, "
+             "every escape, non-ASCII, 12 field-name classes, ranges with step, constraints, all statement kinds, one "
+             "level of every form, a second level one compound child at a time). Part (b): the comment placer as a "
+             "machine (tokenizer grouping keyed by last line, pending stack, render_missed_comments one loop iteration "
+             "per step, tail flush, second pass) over all line layouts (<=5 lines/3 statements/3 comments quick, <=6/4/4 "
+             "thorough, plus comment-text, glued-comment and lookahead variants): EachOnce, InOrder, BeforeLaterCode, "
+             "FixedPoint. Every AST (and every C01-generator program, for which FmtGiven.tla computes Canon) is rendered "
+             "in 4 (8) seeded layouts - redundant parentheses, line breaks, trailing commas, quoted names, comments in "
+             "every gap incl. blank and keyword-glued ones - and taken through parse, fmt, parse(fmt), fmt(fmt) of the "
+             "real code: both parses must equal the SPEC's tree, comments (independent scanner) must be the inserted "
+             "ones in order, fmt(fmt)=fmt when every comment sits alone between statements; every placer layout is "
+             "realised as a program; all shipped .ucg files; a sample through ucg fmt / ucg fmt -w.",
+        design_ref="DESIGN.md §4.6, §5/C05, §11.7",
+        note="Trusted: TLC, vp/fmtlay.py (renderer, scanner, normal forms; checked on every case by parsing back), harness "
+             "AST projection, Rust's shortest round-trip float printing. Layout is not demanded by the property: the "
+             "predicted canonical text / interleaving only bind the model (a mismatch there is a tool error). Fixed point "
+             "demanded only for comments outside every top-level statement. Shipped files use the parser as its own "
+             "reference.",
+        technique="TLA+ spec (Fmt.tla, FmtGiven.tla) model-checked with TLC; spec->impl replay of every explored AST in "
+                  "seeded layouts and of sampled placer layouts; fixed repository inputs; binary sample",
+    ),
     "C06": dict(
         category="model_checking",
         text="Constraint.tla: Admit (the checker's narrow/derive_shape and the VM's BuildConstraint/CheckConstraint/"
@@ -193,6 +219,29 @@ CHECKS = {
              "projection. Don't-cares: true/false/NULL glued to symbol characters; byte- or character-based "
              "columns after multi-byte text; a comment glued to `/`. Triples use 4 of the 6 separators.",
         technique="TLA+ spec (Lexer.tla) model-checked and simulated with TLC; spec->impl replay of every explored input",
+    ),
+    "C12": dict(
+        category="model_checking",
+        text="Xml.tla: reference XmlDoc/Expect (the infoset a document tuple denotes: element name, attribute set, "
+             "namespaces in scope, children in order with adjacent text merged, or ERROR for every malformed kind the "
+             "statement lists) and xml.rs transcribed clause by clause down to the events handed to the xml-rs EventWriter "
+             "(Write) plus what a parser reads from that writer's bytes (Read), with named deviations. TLC checks "
+             "XmlDocTotal, ErrorIffMalformed, ConvAgrees (Deviations={}) and TagFormSame (std/xml.ucg tag/doc denote the "
+             "same infoset) over a generator machine of document tuples driven by 88 named features: exhaustive <=4 nodes/"
+             "depth 3/<=3 children; all namespace combinations over <=3 elements; version x encoding x standalone x "
+             "non-ASCII; all feature pairs on <=2 nodes; simulation to depth 4, <=4 children, <=12 nodes. Every document is "
+             "refined (seeded member per string class and position: markup characters, white space, arbitrary Unicode, CR, "
+             "TAB, forbidden characters; prefixes/URIs per document) and converted by the real code via ConverterRegistry "
+             "on a built Val and, for a third of the ASCII refinements, via convert xml / out xml programs written with the "
+             "std/xml.ucg constructors; the bytes are read by expat (raw) and ElementTree (namespace-aware) and compared "
+             "with the predicted infoset; predicted ERROR must be an error.",
+        design_ref="DESIGN.md §4.10, §5/C12, §6, §11.7",
+        note="Trusted: TLC, vp/xmlmodel.py tables/projection/comparator, expat 2.5 + ElementTree, harness Val "
+             "construction. Byte-level well-formedness is delegated to the parser. Don't-cares: indentation white space, "
+             "redundant xmlns, the declaration's content, forbidden characters under version 1.1, {text=NULL}, non-boolean "
+             "standalone. String classes are sampled per seed; structure is exhaustive within the bounds.",
+        technique="TLA+ spec (Xml.tla) model-checked and simulated with TLC; spec->impl replay of every explored document "
+                  "through two routes; expat/ElementTree as independent byte-level environment",
     ),
     "C13": dict(
         category="model_checking",
